@@ -118,10 +118,11 @@ class RadShockProfile(BasicShockProfile):
                                           [zero_discriminant_b,
                                            zero_discriminant_a],
                                            xtol = 1.e-13)
-          if not (rho1 > 1. + 1.e-8 and T1 > 1.):
+          residual = numpy.max(numpy.abs(momentum_and_energy([rho1, T1])))
+          if not (rho1 > 1. + 1.e-8 and T1 > 1. and residual < 1.e-8 * M02):
               # the upstream state (rho = T = 1), a rarefaction state and states
-              # of negative temperature also solve the system: restart from the
-              # hydrodynamic jump
+              # of negative temperature also solve the system, and fsolve may
+              # stop without converging: restart from the hydrodynamic jump
               gm1, gp1 = gamma - 1., gamma + 1.
               rho1, T1 = scipy.optimize.fsolve(momentum_and_energy,
                              [gp1 * M02 / (gm1 * M02 + 2.),
